@@ -383,8 +383,8 @@ def main():
     meta = airq.get_meta()
     interp = make_interp()
     cov = dict(queries=0, cands=[], cols=meta.cols, paths=0)
-    ks = [0, 1, 15, 16, 17, 19] if tier() == "quick" else list(range(0, 22))
-    ns = [16, 17, 19] if tier() == "quick" else list(range(16, 23))
+    ks = [0, 1, 15, 16, 17, 19] if tier() == "quick" else list(range(0, 21))  # up to 4 overflow inputs: products of 5+ factors exceed the solver caps
+    ns = [16, 17, 19] if tier() == "quick" else list(range(16, 21))
     for k in ks:
         for f in (check_first_step, check_aux_first):
             try:
